@@ -272,3 +272,127 @@ def rule_py_sibling_arm_args(rep, floor=2):
     if n < 2:
         raise AnalysisError("only %d methods shared by sibling appending arms found" % n)
     return r.done()
+
+
+def rule_py_offsets_of_pieces(rep, floor=2):
+    r = rep.rule("PAIR.py-offsets-of-pieces", "a loop that collects pieces into one list (`outparts.append(piece)`) and running offsets into another (`outoffsets.append(outoffsets[-1] + len(X))`) measures the piece "
+                 "it has just collected: X is that piece (`outparts[-1]`, or the name that was appended) - the length of the slicer or of the input piece is a different number whenever the operation "
+                 "filters (a boolean mask keeps fewer items than it has entries)", floor=floor)
+    n = 0
+    for rel in _mods():
+        m = pf.module(rel)
+        occ = {}
+        for fn in _funcs(m.tree):
+            for lp in [x for x in ast.walk(fn) if isinstance(x, (ast.For, ast.While)) and _owner_func(x) is fn]:
+                appends = [s.value for s in lp.body if isinstance(s, ast.Expr) and isinstance(s.value, ast.Call) and isinstance(s.value.func, ast.Attribute) and s.value.func.attr == "append"
+                           and isinstance(s.value.func.value, ast.Name) and len(s.value.args) == 1]
+                for a in appends:
+                    O = a.func.value.id
+                    v = a.args[0]
+                    # O.append(O[-1] + len(X))
+                    if not (isinstance(v, ast.BinOp) and isinstance(v.op, ast.Add)):
+                        continue
+                    sides = [v.left, v.right]
+                    prev = [x for x in sides if ast.unparse(x) == "%s[-1]" % O]
+                    lens = [x for x in sides if isinstance(x, ast.Call) and isinstance(x.func, ast.Name) and x.func.id == "len" and len(x.args) == 1]
+                    if len(prev) != 1 or len(lens) != 1:
+                        continue
+                    others = [b for b in appends if b is not a and b.func.value.id != O]
+                    if not others:
+                        continue
+                    X = ast.unparse(lens[0].args[0])
+                    good = set()
+                    for b in others:
+                        good.add("%s[-1]" % b.func.value.id)
+                        good.add(ast.unparse(b.args[0]))
+                    n += 1
+                    occ[fn.name] = occ.get(fn.name, 0) + 1
+                    r.check(X in good, "%s:%s#%s%s" % (rel, fn.name, O, "" if occ[fn.name] == 1 else "@%d" % occ[fn.name]), m.where(a),
+                            "%s: %s advances `%s` by len(%s), which is not the piece collected in the same iteration (%s)" % (rel, fn.name, O, X, sorted(good)[:2]), detail="measures the collected piece")
+    if n < 1:
+        raise AnalysisError("only %d loops collecting pieces and their running offsets found" % n)
+    return r.done()
+
+
+def rule_py_default_none_identity(rep, floor=100):
+    r = rep.rule("NONE.py-default-by-identity", "a parameter whose default is None is told apart from a given value with `is None` / `is not None`, not by truthiness (`if not at:`): 0, an empty string and an empty array are "
+                 "values a caller may pass, and truthiness sends them down the no-argument arm (ArrayBuilder.append(array, 0) appended the whole array) - "
+                 "(function, parameter) pairs in tables/py_truthy_default_exceptions.json are accepted with a reason", floor=floor)
+    table = load_table("py_truthy_default_exceptions.json")
+    n = 0
+    for rel in _mods():
+        m = pf.module(rel)
+        for fn in _funcs(m.tree):
+            a = fn.args
+            names = [x.arg for x in a.posonlyargs + a.args]
+            dflt = dict(zip(names[len(names) - len(a.defaults):], a.defaults))
+            for x, d in zip(a.kwonlyargs, a.kw_defaults):
+                if d is not None:
+                    dflt[x.arg] = d
+            none = {k for k, d in dflt.items() if isinstance(d, ast.Constant) and d.value is None}
+            if not none:
+                continue
+            # a parameter re-bound in the body is no longer "the default or the caller's value"
+            rebound = {x.id for s in ast.walk(fn) if isinstance(s, (ast.Assign, ast.AugAssign, ast.For)) for t in (s.targets if isinstance(s, ast.Assign) else [s.target]) for x in ast.walk(t) if isinstance(x, ast.Name)}
+            k = 0
+            for t in ast.walk(fn):
+                if _owner_func(t) is not fn:
+                    continue
+                if isinstance(t, ast.Compare) and isinstance(t.left, ast.Name) and t.left.id in none and any(isinstance(o, (ast.Is, ast.IsNot)) for o in t.ops):
+                    n += 1
+                    k += 1
+                    r.ok("%s:%s(%s)#is%d" % (rel, fn.name, t.left.id, k), "identity test")
+                    continue
+                tests = []
+                if isinstance(t, (ast.If, ast.While, ast.IfExp, ast.Assert)):
+                    tests = [t.test]
+                elif isinstance(t, ast.BoolOp):
+                    tests = list(t.values)
+                for e in tests:
+                    if isinstance(e, ast.UnaryOp) and isinstance(e.op, ast.Not):
+                        e = e.operand
+                    if not (isinstance(e, ast.Name) and e.id in none and e.id not in rebound):
+                        continue
+                    n += 1
+                    key = "%s:%s(%s)" % (rel, fn.name, e.id)
+                    if key in table:
+                        r.excepted(key, table[key])
+                        continue
+                    r.fail(key, m.where(e), "%s: %s tests its None-defaulted parameter `%s` by truthiness: a caller's 0 / empty value takes the no-argument arm" % (rel, fn.name, e.id))
+    if n < 50:
+        raise AnalysisError("only %d tests of None-defaulted parameters found" % n)
+    return r.done()
+
+
+def rule_py_path_tail(rep, floor=2):
+    r = rep.rule("REC.py-path-tail", "a function that consumes a path-like parameter from the front (it reads `P[0]`) and calls a function of its own name with an expression over P passes the head `P[0]` (the one-step case), "
+                 "the rest `P[1:]`, or P unchanged: any other piece (`P[-1]`, `P[:-1]`, `P[2:]`) skips or repeats path elements - with_field(base, what, (\"a\", \"b\", \"c\")) attached the value one level too high", floor=floor)
+    n = 0
+    for rel in _mods():
+        m = pf.module(rel)
+        for fn in _funcs(m.tree):
+            full = [x.arg for x in fn.args.posonlyargs + fn.args.args]
+            for P in full:
+                if P in ("self", "cls"):
+                    continue
+                heads = [s for s in ast.walk(fn) if isinstance(s, ast.Subscript) and isinstance(s.value, ast.Name) and s.value.id == P and isinstance(s.slice, ast.Constant) and s.slice.value == 0]
+                if not heads:
+                    continue
+                k = 0
+                for c in ast.walk(fn):
+                    if not (isinstance(c, ast.Call) and ((isinstance(c.func, ast.Name) and c.func.id == fn.name) or (isinstance(c.func, ast.Attribute) and c.func.attr == fn.name))):
+                        continue
+                    arg = next((kw.value for kw in c.keywords if kw.arg == P), None)
+                    pi = full.index(P) - (1 if isinstance(c.func, ast.Attribute) and full and full[0] in ("self", "cls") else 0)
+                    if arg is None and 0 <= pi < len(c.args):
+                        arg = c.args[pi]
+                    if arg is None or not any(isinstance(x, ast.Name) and x.id == P for x in ast.walk(arg)):
+                        continue
+                    n += 1
+                    k += 1
+                    txt = ast.unparse(arg)
+                    r.check(txt in (P, "%s[0]" % P, "%s[1:]" % P), "%s:%s(%s)#call%d" % (rel, fn.name, P, k), m.where(c),
+                            "%s: %s reads the head of its path `%s[0]` and hands `%s` to the next call: neither the head, the rest `%s[1:]`, nor the whole path" % (rel, fn.name, P, txt, P), detail=txt)
+    if n < 2:
+        raise AnalysisError("only %d recursive calls over a path parameter found" % n)
+    return r.done()
